@@ -6,6 +6,7 @@ from .. import inputs
 from . import geom
 
 SPEC = dict(
+    technique='Lean 4 proof (incidence, projection, common perpendicular, plane intersection; regenerated model) + float monitor',
     lean_modules=['SmVerif.Props.C19'],
     groups=['Plucker'],
     partial=['polynomial / rational identities of the traced constructors and accessors are proved; predicates with absolute tolerances '
